@@ -40,6 +40,18 @@ theorem length_guard_exact {p : Prog} {B pc ok : Nat} {m : Mem} (hp : Placed p B
 theorem length_guard_arith {M w len : Nat} (hw : 0 < w) (hH : 0 < M / 2) (hlen : len ≤ (M / 2 - 1) / w) :
     len * w < M / 2 ∧ toS M len = (len : Int) := Sphinx.length_guard_arith hw hH hlen
 
+/-- ... and it rules out nothing else: a length the guard rejects needs at least `M/2` bytes (which covers every
+length that is negative as a signed word when `w ≥ 1`), so `max_length` is exact, not merely safe - for every word
+size and element size -/
+theorem length_guard_tight {M w len : Nat} (hw : 0 < w) (hlen : ¬ len ≤ (M / 2 - 1) / w) : M / 2 ≤ len * w := by
+  have h1 : M / 2 - 1 < w * ((M / 2 - 1) / w + 1) := Nat.lt_mul_div_succ _ hw
+  have h2 : (M / 2 - 1) / w + 1 ≤ len := by omega
+  have h3 : w * ((M / 2 - 1) / w + 1) ≤ w * len := Nat.mul_le_mul_left w h2
+  rw [Nat.mul_comm w len] at h3
+  omega
+
+example : ¬ (8192 : Nat) ≤ (65536 / 2 - 1) / 4 ∧ 65536 / 2 ≤ 8192 * 4 ∧ (8191 : Nat) ≤ (65536 / 2 - 1) / 4 := by decide
+
 /-- the four error stubs emit their kind, then `error`, then only the terminal loop -/
 theorem error_stub_trace {p : Prog} {B : Nat} (hp : Placed p B) (m : Mem) :
     Reach (sphinx p) ⟨B + off_stack_overflow, m⟩ [Ev.flag "stack_overflow", Ev.flag "error"] ⟨tntPc B, m⟩ ∧
